@@ -10,6 +10,7 @@ import F1Verif.Drive.Parse
 import F1Verif.Drive.Plan
 import F1Verif.Drive.Run
 import F1Verif.Drive.Pool
+import F1Verif.Drive.Render
 /-!
 Line-protocol driver (`f1model`). One case per line on stdin:
 
@@ -25,6 +26,8 @@ def dispatch (op : String) : Option (List String → List String → Option (Str
   | "verdict" => some verdict
   | "dist" => some dist
   | "run" => some runOp
+  | "render" => some render
+  | "tmpl" => some tmplOp
   | "jobcounter" => some jobcounter
   | "pool.script" => some poolScript
   | "pool.stress" => some poolSpec
